@@ -738,6 +738,10 @@ class ModuleVistor(NodeVisitor):
             return
 
         if obj is not None:
+            if isinstance(obj, model.Module):
+                # Make sure the module has been analysed: it sets its own docstring when it is,
+                # and the one assigned here replaces it (like it does at run time).
+                self.system.getProcessedModule(obj.fullName())
             obj.docstring = docstring
             # TODO: It might be better to not perform docstring parsing until
             #       we have the final docstrings for all objects.
